@@ -1,5 +1,5 @@
 /-
-  SH.Props.C21 — persistent caches reload exactly what was saved and never serve wrong data.
+  SH.Lemmas.C21Base — C21, first round development (was SH.Props.C21; the headline statements are now in SH/Props/C21.lean).
 
   Property (properties.jsonl): "Reloading a chunked storage file yields exactly the saved items, and a truncated or
   corrupted file yields a prefix of the saved chunks and never a damaged item. The mapping cache never returns a value
